@@ -327,6 +327,206 @@ func genGetters(root *pkgInfo) string {
 		b.WriteString(txt)
 		b.WriteString("\n")
 	}
+	b.WriteString(genSetters(root))
 	b.WriteString("end Psa.Generated\n")
+	return b.String()
+}
+
+// ---- setters: validations on the parameter, then <recv>.<Field> = &param, then return nil ----
+
+type setterSpec struct {
+	recv, name, lean, field string
+}
+
+var setterSpecs = []setterSpec{
+	{"P1Claims", "SetClientID", "p1SetClientID", "ClientID"},
+	{"P1Claims", "SetSecurityLifeCycle", "p1SetSecurityLifeCycle", "SecurityLifeCycle"},
+	{"P1Claims", "SetImplID", "p1SetImplID", "ImplID"},
+	{"P1Claims", "SetBootSeed", "p1SetBootSeed", "BootSeed"},
+	{"P1Claims", "SetCertificationReference", "p1SetCertificationReference", "CertificationReference"},
+	{"P1Claims", "SetNonce", "p1SetNonce", "Nonce"},
+	{"P1Claims", "SetInstID", "p1SetInstID", "InstID"},
+	{"P1Claims", "SetVSI", "p1SetVSI", "VSI"},
+	{"P2Claims", "SetClientID", "p2SetClientID", "ClientID"},
+	{"P2Claims", "SetSecurityLifeCycle", "p2SetSecurityLifeCycle", "SecurityLifeCycle"},
+	{"P2Claims", "SetImplID", "p2SetImplID", "ImplID"},
+	{"P2Claims", "SetBootSeed", "p2SetBootSeed", "BootSeed"},
+	{"P2Claims", "SetCertificationReference", "p2SetCertificationReference", "CertificationReference"},
+	{"P2Claims", "SetVSI", "p2SetVSI", "VSI"},
+	{"SwComponent", "SetMeasurementValue", "compSetMeasurementValue", "MeasurementValue"},
+	{"SwComponent", "SetSignerID", "compSetSignerID", "SignerID"},
+	{"SwComponent", "SetMeasurementType", "compSetMeasurementType", "MeasurementType"},
+	{"SwComponent", "SetVersion", "compSetVersion", "Version"},
+	{"SwComponent", "SetMeasurementDesc", "compSetMeasurementDesc", "MeasurementDesc"},
+}
+
+// translateSetter: `def <lean> (v : T) : Outcome Unit` = the verdict of the setter on the value v; `.ok ()` means: the
+// one statement that follows the validations is `<recv>.<field> = &v` (checked here), nothing else is assigned.
+func translateSetter(p *pkgInfo, spec setterSpec) string {
+	fd := p.findFunc(spec.recv + "." + spec.name)
+	g := &gtr{p: p, spec: getterSpec{recv: spec.recv, name: spec.name, lean: spec.lean, field: spec.field}, local: map[string]bool{}}
+	head := fmt.Sprintf("/-- translated from Go `%s.%s`: the verdict on the value; on `.ok` the field `%s` (and nothing else) is assigned the value -/\n", spec.recv, spec.name, spec.field)
+	if fd == nil || fd.Recv == nil || len(fd.Recv.List) != 1 || len(fd.Recv.List[0].Names) != 1 || fd.Type.Params == nil || len(fd.Type.Params.List) != 1 || len(fd.Type.Params.List[0].Names) != 1 {
+		return head + fmt.Sprintf("def %s : Unit := (unsupported_go_construct \"setter %s.%s: signature\")\n", spec.lean, spec.recv, spec.name)
+	}
+	g.recv = fd.Recv.List[0].Names[0].Name
+	param := fd.Type.Params.List[0].Names[0].Name
+	g.alias = "" // the parameter plays the part of the dereferenced field
+	ty := ""
+	switch exprString(fd.Type.Params.List[0].Type) {
+	case "int32":
+		ty = "Int"
+	case "uint16":
+		ty = "Nat"
+	case "[]byte", "string":
+		ty = "Bytes"
+	}
+	if ty == "" {
+		return head + fmt.Sprintf("def %s : Unit := (unsupported_go_construct \"setter %s.%s: parameter type\")\n", spec.lean, spec.recv, spec.name)
+	}
+	sg := &setGtr{gtr: g, param: param}
+	body := sg.stmts(fd.Body.List, "  ")
+	return head + fmt.Sprintf("def %s (v : %s) : Outcome Unit :=\n%s\n", spec.lean, ty, body)
+}
+
+type setGtr struct {
+	*gtr
+	param string
+}
+
+// in a setter the value is the parameter itself
+func (g *setGtr) isVal(e ast.Expr) bool {
+	if p, ok := e.(*ast.ParenExpr); ok {
+		return g.isVal(p.X)
+	}
+	id, ok := e.(*ast.Ident)
+	return ok && id.Name == g.param
+}
+
+func (g *setGtr) intExpr(e ast.Expr) string {
+	switch x := e.(type) {
+	case *ast.BasicLit:
+		if x.Kind == token.INT {
+			return x.Value
+		}
+	case *ast.Ident:
+		if g.local[x.Name] {
+			return x.Name
+		}
+		if c, ok := g.p.constants()[x.Name]; ok && !c.isStr {
+			return fmt.Sprint(c.n)
+		}
+	case *ast.CallExpr:
+		if id, ok := x.Fun.(*ast.Ident); ok && id.Name == "len" && len(x.Args) == 1 && g.isVal(x.Args[0]) {
+			return "v.length"
+		}
+	case *ast.ParenExpr:
+		return g.intExpr(x.X)
+	}
+	return g.bad("integer expression", e)
+}
+
+func (g *setGtr) cond(e ast.Expr) string {
+	switch x := e.(type) {
+	case *ast.ParenExpr:
+		return "(" + g.cond(x.X) + ")"
+	case *ast.UnaryExpr:
+		if x.Op == token.NOT {
+			return "(!" + g.cond(x.X) + ")"
+		}
+	case *ast.BinaryExpr:
+		switch x.Op {
+		case token.LAND:
+			return "(" + g.cond(x.X) + " && " + g.cond(x.Y) + ")"
+		case token.LOR:
+			return "(" + g.cond(x.X) + " || " + g.cond(x.Y) + ")"
+		case token.EQL, token.NEQ, token.LSS, token.LEQ, token.GTR, token.GEQ:
+			op := map[token.Token]string{token.EQL: "==", token.NEQ: "!=", token.LSS: "<", token.LEQ: "≤", token.GTR: ">", token.GEQ: "≥"}[x.Op]
+			if x.Op == token.EQL || x.Op == token.NEQ {
+				return "(" + g.intExpr(x.X) + " " + op + " " + g.intExpr(x.Y) + ")"
+			}
+			return "(decide (" + g.intExpr(x.X) + " " + op + " " + g.intExpr(x.Y) + "))"
+		}
+	case *ast.CallExpr:
+		if s, ok := x.Fun.(*ast.SelectorExpr); ok && s.Sel.Name == "MatchString" && len(x.Args) == 1 && g.isVal(x.Args[0]) {
+			if id, ok := s.X.(*ast.Ident); ok {
+				if l, ok := getterRegexes[id.Name]; ok {
+					return "(" + l + " v)"
+				}
+			}
+		}
+	}
+	return g.bad("condition", e)
+}
+
+func (g *setGtr) stmts(ss []ast.Stmt, indent string) string {
+	if len(ss) == 0 {
+		return indent + g.bad("control reaches end of setter", nil)
+	}
+	s, rest := ss[0], ss[1:]
+	switch x := s.(type) {
+	case *ast.ReturnStmt:
+		if len(x.Results) == 1 {
+			if m, ok := g.errMask(x.Results[0]); ok {
+				return fmt.Sprintf("%s.err %d", indent, m)
+			}
+		}
+		return indent + g.bad("return form in setter", s)
+	case *ast.AssignStmt:
+		// l := len(v)
+		if x.Tok == token.DEFINE && len(x.Lhs) == 1 && len(x.Rhs) == 1 {
+			if id, ok := x.Lhs[0].(*ast.Ident); ok {
+				g.local[id.Name] = true
+				return fmt.Sprintf("%slet %s := %s\n%s", indent, id.Name, g.intExpr(x.Rhs[0]), g.stmts(rest, indent))
+			}
+		}
+		// the assignment: <recv>.<Field> = &v, followed by `return nil` and nothing else
+		if x.Tok == token.ASSIGN && len(x.Lhs) == 1 && len(x.Rhs) == 1 && g.gtr.isField(x.Lhs[0]) {
+			if u, ok := x.Rhs[0].(*ast.UnaryExpr); ok && u.Op == token.AND && g.isVal(u.X) && len(rest) == 1 {
+				if r, ok := rest[0].(*ast.ReturnStmt); ok && len(r.Results) == 1 && selString(r.Results[0]) == "nil" {
+					return indent + ".ok ()"
+				}
+			}
+		}
+		return indent + g.bad("assignment form in setter", s)
+	case *ast.IfStmt:
+		if x.Else != nil {
+			return indent + g.bad("else in setter", s)
+		}
+		if x.Init != nil {
+			as, ok := x.Init.(*ast.AssignStmt)
+			if ok && as.Tok == token.DEFINE && len(as.Lhs) == 1 && len(as.Rhs) == 1 && selString(as.Lhs[0]) == "err" {
+				if c, ok := as.Rhs[0].(*ast.CallExpr); ok && len(c.Args) == 1 && g.isVal(c.Args[0]) {
+					if id, ok := c.Fun.(*ast.Ident); ok {
+						if lean, ok := getterCallees[id.Name]; ok {
+							be, okc := x.Cond.(*ast.BinaryExpr)
+							if okc && be.Op == token.NEQ && selString(be.X) == "err" && selString(be.Y) == "nil" && len(x.Body.List) == 1 {
+								if r, ok := x.Body.List[0].(*ast.ReturnStmt); ok && len(r.Results) == 1 && selString(r.Results[0]) == "err" {
+									return fmt.Sprintf("%s(%s v).bind fun _ =>\n%s", indent, lean, g.stmts(rest, indent))
+								}
+							}
+						}
+					}
+				}
+			}
+			if ok && as.Tok == token.DEFINE && len(as.Lhs) == 1 && len(as.Rhs) == 1 {
+				plain := *x
+				plain.Init = nil
+				return g.stmts(append([]ast.Stmt{as, &plain}, rest...), indent)
+			}
+			return indent + g.bad("if with init in setter", s)
+		}
+		thenS := g.stmts(x.Body.List, indent+"  ")
+		return fmt.Sprintf("%sif %s then\n%s\n%selse\n%s", indent, g.cond(x.Cond), thenS, indent, g.stmts(rest, indent+"  "))
+	}
+	return indent + g.bad(fmt.Sprintf("statement %T in setter", s), s)
+}
+
+func genSetters(root *pkgInfo) string {
+	var b strings.Builder
+	for _, s := range setterSpecs {
+		b.WriteString(translateSetter(root, s))
+		b.WriteString("\n")
+	}
 	return b.String()
 }
